@@ -4,8 +4,11 @@ import PsModel.Lemmas.C20
 
 Only property statements live here; helper lemmas are in `Lemmas/C20.lean`.
 `ver` is an arbitrary version type with `VerOk ver` (`<=` a total preorder; sentinel and "" are not versions);
-`cfg` carries the deviation parameters (`current` = the code today, after the `fix:` commits e2ec6b7, d07dfc5 and 5d02a52;
-`Cfg.preFix` = before them, used only by the `_regress_` theorems).
+`cfg` carries the deviation parameters.  `current` = the code today: every field is GENERATED from requirements.py on
+every run (`Gen/ReqTbl.lean`), as are the case split (`Gen.REQ_MERGE_ROWS`) and the per-package install decision
+(`Gen.REQ_DECIDE_ROWS`) that `branch` / `decidePkg` interpret – so every theorem below that mentions `current`, `branch`,
+`decidePkg`, `parseLine` … is re-checked against what the code says now.  `Cfg.round3` / `Cfg.preFix` / `Cfg.preBomFix` are
+hand-written earlier shapes, used only by the `_regress_` theorems.
 -/
 namespace PsModel.C20
 variable {V : Type}
@@ -38,8 +41,9 @@ theorem C20_order_partial (cfg : Cfg) (ver : Ver V) (ok : VerOk ver) (site site'
 theorem C20_invalid_pin_ignored (ver : Ver V) (site : Str → Option Str) (t : Table) (src : Nat) (raw n v : Str)
     (hp : parseLine current raw = some (n, some v)) (hv : ver.parse v = none) :
     processLine current ver site t (src, raw) = t := by
-  have hr : rejectedByFix current ver (some v) = true := by simp [rejectedByFix, current, hv]
-  simp only [processLine, hp, hr, if_true]
+  have hr : rejectedByFix current ver (some v) = true := by
+    simp [rejectedByFix, current, Gen.REQ_VALIDATE_FIRST_PIN, hv]
+  simp only [processLine, meaning, hp, hr, if_true]
 
 /-! ### regression witnesses: the pre-fix configuration `Cfg.preFix` really behaves differently (the two parameters
 are not vacuous).  These were the `_cex` theorems while findings C20-F1…F4 were open; the real pre-fix code is
@@ -99,13 +103,13 @@ theorem C20_bom_ignored (id : Nat) (dir : List Str) (l : Str) (ls : List Str) :
     fileLines current ⟨id, dir, (BOM :: l) :: ls⟩ = (l :: ls).map (fun x => (id, x)) ∧
     (l.head? ≠ some BOM → fileLines current ⟨id, dir, l :: ls⟩ = (l :: ls).map (fun x => (id, x))) := by
   constructor
-  · simp [fileLines, decodeLines, current]
+  · simp [fileLines, decodeLines, current, Gen.REQ_STRIP_BOM]
   · intro h
     cases l with
-    | nil => simp [fileLines, decodeLines, current]
+    | nil => simp [fileLines, decodeLines, current, Gen.REQ_STRIP_BOM]
     | cons c cs =>
       have hc : c ≠ BOM := fun e => h (by simp [e])
-      simp [fileLines, decodeLines, current, hc]
+      simp [fileLines, decodeLines, current, Gen.REQ_STRIP_BOM, hc]
 
 /-- hence the full-strength statement was FALSE for the pre-fix code: `C20_order_full` cannot be proved for
 `Cfg.preFix`, the hypothesis of `C20_order_partial` is needed there -/
@@ -139,26 +143,36 @@ theorem C20_cex_extras_override_host :
     (runOnce current numVer { site := [("p".toList, "2.0".toList)], index := [] } true [] [(0, "p[extra]==1.0".toList)]).1.site
       = [("p".toList, "1.0".toList)] := by decide
 
-/-- (open C20-F9) an installed / recorded version string that is not PEP 440 makes the install decision raise
-(`InvalidVersion` escapes `install_requirements`): `decidePkg` has no branch that survives it -/
-theorem C20_cex_legacy_installed_version :
+/-- (fixed C20-F9) an installed / recorded version string that is not PEP 440 made the install decision raise
+(`InvalidVersion` escaped `install_requirements`: with `Version(a) != Version(b)` – `Cfg.round3` – `decidePkg` has no
+branch that survives it); today (`same_version`) the package pyscript installed as `2004d` is simply updated to the pin -/
+theorem C20_regress_legacy_installed_version :
+    (runOnce Cfg.round3 numVer { site := [("p".toList, "2004d".toList)], index := [] } true [("p".toList, "2004d".toList)]
+      [(0, "p==1.0".toList)]).2.exc = some "InvalidVersion" ∧
     (runOnce current numVer { site := [("p".toList, "2004d".toList)], index := [] } true [("p".toList, "2004d".toList)]
-      [(0, "p==1.0".toList)]).2.exc = some "InvalidVersion" := by decide
+      [(0, "p==1.0".toList)]).2.args = some ["p==1.0".toList] ∧
+    (runOnce current numVer { site := [("p".toList, "2004d".toList)], index := [] } true [("p".toList, "2004d".toList)]
+      [(0, "p==1.0".toList)]).2.rec' = [("p".toList, "1.0".toList)] ∧
+    -- installed by somebody else in a version that is not PEP 440, recorded by pyscript as 1.0: forgotten, not touched
+    (runOnce current numVer { site := [("p".toList, "2004d".toList)], index := [] } true [("p".toList, "1.0".toList)]
+      [(0, "p==2.0".toList)]).2.args = none ∧
+    (runOnce current numVer { site := [("p".toList, "2004d".toList)], index := [] } true [("p".toList, "1.0".toList)]
+      [(0, "p==2.0".toList)]).2.rec' = [] := by decide
 
 /-- **Highest pin** (`_partial`: exactly the fragment outside findings C20-F6/F7).  When every line means to the
 code what it means to the reference (plain name written in its normal form, pin is a version – or the line is ignored
 by both), the recorded version of every package is a correct selection in the
 sense of `Selected`: a highest valid pin; the unpinned marker only if no pin exists; nothing if no line names it. -/
 theorem C20_highest (cfg : Cfg) (ver : Ver V) (ok : VerOk ver) (site : Str → Option Str) (ls : List (Nat × Str))
-    (hspec : ∀ l ∈ ls, parseLine cfg l.2 = specLine ver l.2) (p : Str) :
+    (hspec : ∀ l ∈ ls, meaning cfg ver l.2 = specLine ver l.2) (p : Str) :
     Selected ver (ls.filterMap (fun l => specLine ver l.2)) p (versionOf (mergeAll cfg ver site ls) p) :=
   selected_mergeAll cfg ver ok site ls hspec p
 
 /-- **Blank and comment lines are ignored**, wherever they stand. -/
 theorem C20_blank_comment_ignored (cfg : Cfg) (ver : Ver V) (site : Str → Option Str) (t : Table) (src : Nat)
     (raw : Str) (h : ∀ c ∈ cutComment raw, isWs c = true) : processLine cfg ver site t (src, raw) = t := by
-  have : parseLine cfg raw = none := parseLine_of_body_nil cfg raw (strip_allWs _ h)
-  simp [processLine, this]
+  have : parseLine cfg raw = none := parseLine_of_body_nil cfg raw (by rw [body_eq]; exact strip_allWs _ h)
+  simp [processLine, meaning, this]
 
 /-- **An inline comment does not change what a line means.** -/
 theorem C20_inline_comment_ignored (cfg : Cfg) (raw tail : Str) (h : '#' ∉ raw) :
@@ -174,7 +188,7 @@ theorem C20_range_specifier_ignored (cfg : Cfg) (ver : Ver V) (site : Str → Op
     rcases h with h | h
     · exact parseLine_of_specPat cfg raw h
     · exact parseLine_of_many_parts cfg raw h
-  simp [processLine, this]
+  simp [processLine, meaning, this]
 
 /-- for the code today that set is `,` `>` `<` `~=` `!=`: every line whose body is `pre ++ pat ++ post` for one of
 these five patterns – all `>=` `<=` `>` `<` `~=` `!=` and `,`-joined forms – is ignored (`fix:` d07dfc5 / 5d02a52) -/
@@ -192,7 +206,7 @@ theorem C20_ignored_lines_irrelevant (cfg : Cfg) (ver : Ver V) (site : Str → O
   apply foldl_filter_irrelevant
   intro t l hl
   cases hp : parseLine cfg l.2 with
-  | none => simp [processLine, hp]
+  | none => simp [processLine, meaning, hp]
   | some x => simp [hp] at hl
 
 /-- the merged table is a well-formed dict: one row per (non-empty) package name, and the installed-version column
@@ -209,34 +223,55 @@ theorem C20_nothing_without_optin (cfg : Cfg) (ver : Ver V) (w : World) (r : Rec
     (runOnce cfg ver w false r ls).1 = w ∧ (runOnce cfg ver w false r ls).2.args = none ∧
     (runOnce cfg ver w false r ls).2.rec' = r ∧ (runOnce cfg ver w false r ls).2.updated = false ∧
     (runOnce cfg ver w false r ls).2.exc = none := by
-  have hb : phase1 ver false (mergeAll cfg ver w.installed ls) r = .blocked := by
+  have hb : phase1 cfg ver false (mergeAll cfg ver w.installed ls) (readRec cfg r) = .blocked := by
     unfold phase1
+    rw [optinGuard_eq]
     cases hm : mergeAll cfg ver w.installed ls with
     | nil => exact absurd hm h
     | cons x xs => simp
   simp [runOnce, hb]
 
+/-- **The tables read off the source are the decision procedures the theorems reason about**: interpreting the
+generated rows of the case split (`Gen.REQ_MERGE_ROWS`: `not cur` → record, unpinned-vs-pinned precedence in both
+directions, equal → add source, lower → replace, higher → ignore, `ValueError` → skip) and of the per-package install
+decision (`Gen.REQ_DECIDE_ROWS`: not installed → install; unpinned → never install, forget on a text difference;
+recorded but another version installed → forget; recorded and pinned differently → install; otherwise – in particular
+installed and NOT recorded – nothing) gives exactly the hand-written functions `branchRef` / `decidePkgRef`. -/
+theorem C20_generated_rows_are_reference (cfg : Cfg) (ver : Ver V) :
+    (∀ cur new, branch ver cur new = branchRef ver cur new) ∧
+    (∀ recd e, decidePkg cfg ver recd e = decidePkgRef cfg ver recd e) :=
+  ⟨branch_eq_ref ver, decidePkg_eq_ref cfg ver⟩
+
+/-- the generated configuration is, value for value, the hand-written `Cfg.round4` (rejection substrings
+`,` `>` `<` `~=` `!=`, first pin validated, byte-order mark stripped, versions compared through `same_version` since the
+repair of C20-F9; names still compared as the open findings C20-F6/F7 describe, nothing recorded after an installer
+failure, C20-F5), and the other shape parameters are the ones the model was written for -/
+theorem C20_current_shape :
+    current = Cfg.round4 ∧ Gen.REQ_COMMENT_MARK = '#' ∧ Gen.REQ_STRIP_AFTER_COMMENT = true ∧ Gen.REQ_SKIP_BLANK = true ∧
+    Gen.REQ_PIN_SEP = ('=', '=') ∧ Gen.REQ_MAX_PARTS = 2 ∧ Gen.REQ_OPTIN_GUARD = true := by decide
+
 /-- **Exactly the reference install rule.**  For a table with unique names, a package goes to the installer iff
 it is not installed, or pyscript recorded the version that is installed and a different version is pinned now
 (`ShouldInstall`); and the installer gets nothing that is not in the table. -/
-theorem C20_install_iff (ver : Ver V) (allow : Bool) (t : Table) (hnd : (t.map (·.name)).Nodup) (r r1 : Rec)
-    (ti : List Entry) (h : phase1 ver allow t r = .go r1 ti) :
+theorem C20_install_iff (cfg : Cfg) (ver : Ver V) (ok : VerOk ver) (allow : Bool) (t : Table)
+    (hnd : (t.map (·.name)).Nodup) (r r1 : Rec) (ti : List Entry) (h : phase1 cfg ver allow t r = .go r1 ti) :
     (∀ e ∈ t, e ∈ ti ↔ ShouldInstall ver (rget r e.name) e) ∧ (∀ x ∈ ti, x ∈ t) := by
-  obtain ⟨_, _, _, hti⟩ := phase1_go ver allow t hnd r r1 ti h
+  obtain ⟨_, hraise, _, hti⟩ := phase1_go cfg ver allow t hnd r r1 ti h
   subst hti
   constructor
   · intro e he
-    rw [mem_installs, decidePkg_install_iff]
+    rw [mem_installs, decidePkg_install_iff cfg ver ok _ e (not_raise_of_raises_false cfg ver r t hraise e he)]
     exact ⟨fun h => h.2, fun h => ⟨he, h⟩⟩
-  · intro x hx; exact ((mem_installs ver r t x).1 hx).1
+  · intro x hx; exact ((mem_installs cfg ver r t x).1 hx).1
 
 /-- **Never override the host.**  A package that is installed and that pyscript has no record of is never passed
 to the installer – under any name-equal row, any pins, any flag. -/
-theorem C20_foreign_untouched (ver : Ver V) (allow : Bool) (t : Table) (hnd : (t.map (·.name)).Nodup) (r r1 : Rec)
-    (ti : List Entry) (h : phase1 ver allow t r = .go r1 ti) (e : Entry) (he : e ∈ t) (inst : Str)
+theorem C20_foreign_untouched (cfg : Cfg) (ver : Ver V) (ok : VerOk ver) (allow : Bool) (t : Table)
+    (hnd : (t.map (·.name)).Nodup) (r r1 : Rec)
+    (ti : List Entry) (h : phase1 cfg ver allow t r = .go r1 ti) (e : Entry) (he : e ∈ t) (inst : Str)
     (hinst : truthy e.installed = some inst) (hrec : rget r e.name = none) :
     ∀ x ∈ ti, x.name ≠ e.name := by
-  obtain ⟨hiff, hsub⟩ := C20_install_iff ver allow t hnd r r1 ti h
+  obtain ⟨hiff, hsub⟩ := C20_install_iff cfg ver ok allow t hnd r r1 ti h
   intro x hx hn
   have hxt := hsub x hx
   have e1 : find t x.name = some x := find_of_mem_nodup t hnd x hxt
@@ -245,51 +280,70 @@ theorem C20_foreign_untouched (ver : Ver V) (allow : Bool) (t : Table) (hnd : (t
   cases e1
   have := (hiff e he).1 hx
   rw [hrec] at this
-  rcases this with h0 | ⟨_, _, _, _, _, _, h1, _⟩
+  rcases this with h0 | ⟨_, _, _, h1, _⟩
   · rw [hinst] at h0; cases h0
   · cases h1
 
 /-- **Own packages are updated exactly when the pin differs.**  For an installed package that pyscript recorded:
-it is (re)installed iff the installed version still is the recorded one and a pinned, valid, different version is
-required. -/
-theorem C20_own_updated_iff (ver : Ver V) (allow : Bool) (t : Table) (hnd : (t.map (·.name)).Nodup) (r r1 : Rec)
-    (ti : List Entry) (h : phase1 ver allow t r = .go r1 ti) (e : Entry) (he : e ∈ t) (inst rv : Str)
+it is (re)installed iff the installed version still is the recorded one and a pinned, different version is
+required (`SameV`: the same text, or equal as versions). -/
+theorem C20_own_updated_iff (cfg : Cfg) (ver : Ver V) (ok : VerOk ver) (allow : Bool) (t : Table)
+    (hnd : (t.map (·.name)).Nodup) (r r1 : Rec)
+    (ti : List Entry) (h : phase1 cfg ver allow t r = .go r1 ti) (e : Entry) (he : e ∈ t) (inst rv : Str)
     (hinst : truthy e.installed = some inst) (hrec : rget r e.name = some rv) :
-    e ∈ ti ↔ (e.version ≠ UNP ∧ ∃ a b w, ver.parse rv = some a ∧ ver.parse inst = some b ∧
-               ver.parse e.version = some w ∧ veq ver a b = true ∧ veq ver w b = false) := by
-  rw [(C20_install_iff ver allow t hnd r r1 ti h).1 e he, hrec]
+    e ∈ ti ↔ (e.version ≠ UNP ∧ SameV ver rv inst ∧ ¬ SameV ver e.version inst) := by
+  rw [(C20_install_iff cfg ver ok allow t hnd r r1 ti h).1 e he, hrec]
   constructor
-  · rintro (h0 | ⟨i, r', a, b, w, h1, h2, h3, h4, h5, h6, h7, h8⟩)
+  · rintro (h0 | ⟨i, r', h1, h2, h3, h4, h5⟩)
     · rw [hinst] at h0; cases h0
     · rw [hinst] at h1; cases h1; cases h2
-      exact ⟨h3, a, b, w, h4, h5, h6, h7, h8⟩
-  · rintro ⟨h3, a, b, w, h4, h5, h6, h7, h8⟩
-    exact Or.inr ⟨inst, rv, a, b, w, hinst, rfl, h3, h4, h5, h6, h7, h8⟩
+      exact ⟨h3, h4, h5⟩
+  · rintro ⟨h3, h4, h5⟩
+    exact Or.inr ⟨inst, rv, hinst, rfl, h3, h4, h5⟩
 
 /-- **The record matches what was done.**  After the run the record of every package `m` is: the version just
 handed to the installer (an unpinned one resolved to what is installed afterwards); nothing if the package turned out
 to be changed externally (`decidePkg = pop` ⇔ `ExternallyChanged`); otherwise exactly what it was – in particular for
 packages that no file mentions any more. -/
-theorem C20_record_matches (ver : Ver V) (allow : Bool) (t : Table) (hnd : (t.map (·.name)).Nodup) (r r1 : Rec)
-    (ti : List Entry) (h : phase1 ver allow t r = .go r1 ti) (hk : ((r.map (·.1))).Nodup)
+theorem C20_record_matches (cfg : Cfg) (ver : Ver V) (ok : VerOk ver) (allow : Bool) (t : Table)
+    (hnd : (t.map (·.name)).Nodup) (r r1 : Rec)
+    (ti : List Entry) (h : phase1 cfg ver allow t r = .go r1 ti) (hk : ((r.map (·.1))).Nodup)
     (site' : Str → Option Str) (m : Str) :
-    rget (phase2 site' r1 ti) m = resolveRule site' m (recordRule ver t r m) ∧
-    (∀ e, decidePkg ver (rget r m) e = .pop ↔ ExternallyChanged ver (rget r m) e) ∧
-    (∀ e, decidePkg ver (rget r m) e = .install ↔ ShouldInstall ver (rget r m) e) :=
-  ⟨rget_phase2 ver allow t hnd r r1 ti h hk site' m, fun e => decidePkg_pop_iff ver _ e,
-   fun e => decidePkg_install_iff ver _ e⟩
+    rget (phase2 site' r1 ti) m = resolveRule site' m (recordRule cfg ver t r m) ∧
+    (∀ e ∈ t, decidePkg cfg ver (rget r e.name) e = .pop ↔ ExternallyChanged ver (rget r e.name) e) ∧
+    (∀ e ∈ t, decidePkg cfg ver (rget r e.name) e = .install ↔ ShouldInstall ver (rget r e.name) e) := by
+  obtain ⟨_, hraise, _, _⟩ := phase1_go cfg ver allow t hnd r r1 ti h
+  exact ⟨rget_phase2 cfg ver allow t hnd r r1 ti h hk site' m,
+    fun e he => decidePkg_pop_iff cfg ver ok _ e (not_raise_of_raises_false cfg ver r t hraise e he),
+    fun e he => decidePkg_install_iff cfg ver ok _ e (not_raise_of_raises_false cfg ver r t hraise e he)⟩
+
+/-- **The install decision cannot fail** once versions are compared through `same_version` (`tolerantCmp`, the repair
+of C20-F9): whatever strings are recorded, installed or pinned – PEP 440 or not – `install_requirements` gets through
+its decision loop (`phase1` is `blocked` or `go`, never `raised`), for every table and record. -/
+theorem C20_decision_never_raises (cfg : Cfg) (ht : cfg.tolerantCmp = true) (ver : Ver V) (allow : Bool) (t : Table)
+    (r : Rec) : phase1 cfg ver allow t r ≠ .raised := by
+  unfold phase1
+  split
+  · simp
+  · obtain ⟨st', hs⟩ := decideLoop_isSome cfg ver (decidePkg_ne_raise cfg ver ht) t { recd := r, toInstall := [] }
+    simp [hs]
+
+/-- … and that is the code today: whatever is recorded, installed or pinned, `install_requirements` never raises out
+of its decision loop (the full statement finding C20-F9 blocked) -/
+theorem C20_never_raises (ver : Ver V) (allow : Bool) (t : Table) (r : Rec) : phase1 current ver allow t r ≠ .raised :=
+  C20_decision_never_raises current rfl ver allow t r
 
 /-- **Idempotence.**  If a run reached the installer stage with `ti`, the installer did its job (`InstallOk`), and
 nothing else touches the site, then the next run over the same files installs nothing and leaves the record as it
 is. -/
 theorem C20_idempotent (cfg : Cfg) (ver : Ver V) (site site' : Str → Option Str) (ls : List (Nat × Str))
     (allow : Bool) (r r1 : Rec) (ti : List Entry) (hk : (r.map (·.1)).Nodup) (hnu : ∀ kv ∈ r, kv.2 ≠ UNP)
-    (h : phase1 ver allow (mergeAll cfg ver site ls) r = .go r1 ti)
+    (h : phase1 cfg ver allow (mergeAll cfg ver site ls) r = .go r1 ti)
     (hio : InstallOk ver site site' ti) (hs : ∀ n, site' n ≠ some UNP) :
-    phase1 ver allow (mergeAll cfg ver site' ls) (phase2 site' r1 ti) = .go (phase2 site' r1 ti) [] ∧
+    phase1 cfg ver allow (mergeAll cfg ver site' ls) (phase2 site' r1 ti) = .go (phase2 site' r1 ti) [] ∧
     phase2 site' (phase2 site' r1 ti) [] = phase2 site' r1 ti := by
   rw [mergeAll_refresh cfg ver site site' ls]
-  exact second_run ver site site' _ (tableOk_mergeAll cfg ver site ls) r hk hnu allow r1 ti h hio hs
+  exact second_run cfg ver site site' _ (tableOk_mergeAll cfg ver site ls) r hk hnu allow r1 ti h hio hs
 
 /-! ## non-vacuity: the hypotheses above are satisfiable by non-trivial inputs -/
 
@@ -298,7 +352,7 @@ example : VerOk numVer := numVer_ok
 /-- a well-formed arrangement with pins, an unpinned line, a comment and a range line; `1.10` wins over `1.9` -/
 example :
     (∀ l ∈ [(0, "p==1.9".toList), (1, "p".toList), (0, "p==1.10 # c".toList), (1, "p>=3".toList), (0, "q==1.0.0".toList)],
-        parseLine current l.2 = specLine numVer l.2) ∧
+        meaning current numVer l.2 = specLine numVer l.2) ∧
     versionOf (mergeAll current numVer (fun _ => none)
       [(0, "p==1.9".toList), (1, "p".toList), (0, "p==1.10 # c".toList), (1, "p>=3".toList), (0, "q==1.0.0".toList)])
       "p".toList = some "1.10".toList := by decide
@@ -306,7 +360,7 @@ example :
 /-- a run that reaches the installer: `p` recorded by pyscript at the installed 1.0 and pinned to 2.0 is updated,
 `q` installed by something else is left alone, `s` is new -/
 example :
-    phase1 numVer true
+    phase1 current numVer true
       (mergeAll current numVer (rget [("p".toList, "1.0".toList), ("q".toList, "1.0".toList)])
         [(0, "p==2.0".toList), (0, "q==2.0".toList), (0, "s".toList)])
       [("p".toList, "1.0.0".toList)]
